@@ -9,18 +9,25 @@
 From Model Require Import Base PyVal C09Jwt.
 Open Scope Z_scope.
 
+(* recorded call of one transport function: which one (true = the JWE one), the key /
+   algorithms / registry arguments it received *)
 Inductive c09case :=
-(* jwt.encode(h, c, key, ...): json.dumps record (object -> octets | exception),
-   transport record (header object at entry, payload, result, header object at
+(* jwt.encode(h, c, key, algorithms, registry, encoder_cls): json.dumps record
+   (encoder_cls, claims object as handed over -> octets | exception), transport record
+   (is JWE function, header object at entry, payload, arguments, result, header object at
    exit), outcome, caller's header and claims objects after the call *)
-| CEnc (h : hdr) (c : claims)
-       (dumps : option (pv * res bytes))
-       (tr : option (hdr * bytes * res bytes * hdr))
+| CEnc (h : hdr) (c : claims) (a : targs) (encoder_cls : option N)
+       (dumps : option (option N * claims * res bytes))
+       (tr : option (bool * hdr * bytes * targs * res bytes * hdr))
        (expect : res bytes) (h_after : hdr) (c_after : claims)
-(* convert_claims(c) *)
-| CConv (c : claims) (dumps : option (pv * res bytes)) (expect : res bytes) (c_after : claims)
-(* jwt.decode(tok, key, ...): transport record, json.loads record, outcome *)
-| CDec (tok : bytes) (tr : res (hdr * bytes)) (loads : option (bytes * res pv))
+(* convert_claims(c, encoder_cls) *)
+| CConv (c : claims) (encoder_cls : option N) (dumps : option (option N * claims * res bytes))
+        (expect : res bytes) (c_after : claims)
+(* jwt.decode(tok, key, algorithms, registry, decoder_cls): transport record, json.loads
+   record (decoder_cls, payload -> value | exception), outcome *)
+| CDec (tok : bytes) (a : targs) (decoder_cls : option N)
+       (tr : option (bool * targs * res (hdr * bytes)))
+       (loads : option (option N * bytes * res pv))
        (expect : res (hdr * pv))
 (* calendar.timegm(t.utctimetuple()) as observed through convert_claims({"exp": t}) *)
 | CNd (t : dtime) (expect : res Z).
@@ -41,45 +48,64 @@ Definition cval_eqb (a b : cval) : bool :=
   match a, b with
   | CV x, CV y => pv_eqb x y
   | CDt s, CDt t => dtime_eqb s t
+  | CObj m, CObj n => N.eqb m n
   | _, _ => false
   end.
 
 Definition claims_eqb (a b : claims) : bool :=
   list_eqb (fun x y => str_eqb (fst x) (fst y) && cval_eqb (snd x) (snd y)) a b.
 
-Definition pt_dumps (r : option (pv * res bytes)) : pv -> res bytes :=
-  fun v => match r with
-           | Some (a, out) => if pv_eqb v a then out else Err EOracleMiss
-           | None => Err EOracleMiss
-           end.
+Definition targs_eqb (a b : targs) : bool :=
+  N.eqb (ta_key a) (ta_key b)
+  && oeqb (list_eqb str_eqb) (ta_algs a) (ta_algs b)
+  && oeqb (fun x y => Bool.eqb (fst x) (fst y) && N.eqb (snd x) (snd y)) (ta_reg a) (ta_reg b).
 
-Definition pt_tenc (r : option (hdr * bytes * res bytes * hdr)) : hdr -> bytes -> res bytes * hdr :=
-  fun w p => match r with
-             | Some (aw, ap, out, w') =>
-                 if hdr_eqb w aw && beqb p ap then (out, w') else (Err EOracleMiss, w)
-             | None => (Err EOracleMiss, w)
+Definition pt_dumps (r : option (option N * claims * res bytes)) : option N -> claims -> res bytes :=
+  fun e c => match r with
+             | Some (ae, ac, out) => if oeqb N.eqb e ae && claims_eqb c ac then out else Err EOracleMiss
+             | None => Err EOracleMiss
              end.
 
-Definition pt_tdec (tok : bytes) (r : res (hdr * bytes)) : bytes -> res (hdr * bytes) :=
-  fun t => if beqb t tok then r else Err EOracleMiss.
+(* the recorded transport call answers only for the function that was really called *)
+Definition pt_tenc (jwe : bool) (r : option (bool * hdr * bytes * targs * res bytes * hdr))
+  : hdr -> bytes -> targs -> res bytes * hdr :=
+  fun w p a => match r with
+               | Some (j, aw, ap, aa, out, w') =>
+                   if Bool.eqb j jwe && hdr_eqb w aw && beqb p ap && targs_eqb a aa
+                   then (out, w') else (Err EOracleMiss, w)
+               | None => (Err EOracleMiss, w)
+               end.
 
-Definition pt_loads (r : option (bytes * res pv)) : bytes -> res pv :=
-  fun p => match r with
-           | Some (a, out) => if beqb p a then out else Err EOracleMiss
-           | None => Err EOracleMiss
-           end.
+Definition pt_tdec (jwe : bool) (tok : bytes) (r : option (bool * targs * res (hdr * bytes)))
+  : bytes -> targs -> res (hdr * bytes) :=
+  fun t a => match r with
+             | Some (j, aa, out) =>
+                 if Bool.eqb j jwe && beqb t tok && targs_eqb a aa then out else Err EOracleMiss
+             | None => Err EOracleMiss
+             end.
+
+Definition pt_loads (r : option (option N * bytes * res pv)) : option N -> bytes -> res pv :=
+  fun d p => match r with
+             | Some (ad, a, out) => if oeqb N.eqb d ad && beqb p a then out else Err EOracleMiss
+             | None => Err EOracleMiss
+             end.
 
 Definition tok_eqb (a b : hdr * pv) : bool := hdr_eqb (fst a) (fst b) && pv_eqb (snd a) (snd b).
 
+Definition run_enc h cl a e d tr : enc_out :=
+  jwt_encode (pt_dumps d) (pt_tenc false tr) (pt_tenc true tr) h cl a e.
+Definition run_dec tok a d tr l : res (hdr * pv) :=
+  jwt_decode (pt_loads l) (pt_tdec false tok tr) (pt_tdec true tok tr) tok a d.
+
 Definition c09_check (c : c09case) : bool :=
   match c with
-  | CEnc h cl d tr e ha ca =>
-      let o := encode (pt_dumps d) (pt_tenc tr) h cl in
-      res_eqb beqb (eo_result o) e && hdr_eqb (eo_header o) ha && claims_eqb (eo_claims o) ca
-  | CConv cl d e ca =>
-      let '(c', r) := convert_claims (pt_dumps d) cl in
-      res_eqb beqb r e && claims_eqb c' ca
-  | CDec tok tr l e => res_eqb tok_eqb (decode (pt_loads l) (pt_tdec tok tr) tok) e
+  | CEnc h cl a e d tr ex ha ca =>
+      let o := run_enc h cl a e d tr in
+      res_eqb beqb (eo_result o) ex && hdr_eqb (eo_header o) ha && claims_eqb (eo_claims o) ca
+  | CConv cl e d ex ca =>
+      let '(c', r) := convert_claims_g (pt_dumps d e) cl in
+      res_eqb beqb r ex && claims_eqb c' ca
+  | CDec tok a d tr l ex => res_eqb tok_eqb (run_dec tok a d tr l) ex
   | CNd t e => res_eqb Z.eqb (numericdate t) e
   end.
 
@@ -91,10 +117,10 @@ Inductive c09out :=
 
 Definition c09_show (c : c09case) : c09out :=
   match c with
-  | CEnc h cl d tr _ _ _ =>
-      let o := encode (pt_dumps d) (pt_tenc tr) h cl in
+  | CEnc h cl a e d tr _ _ _ =>
+      let o := run_enc h cl a e d tr in
       OEnc (eo_result o) (eo_header o) (eo_work o) (eo_claims o)
-  | CConv cl d _ _ => let '(c', r) := convert_claims (pt_dumps d) cl in OConv r c'
-  | CDec tok tr l _ => ODec (decode (pt_loads l) (pt_tdec tok tr) tok)
+  | CConv cl e d _ _ => let '(c', r) := convert_claims_g (pt_dumps d e) cl in OConv r c'
+  | CDec tok a d tr l _ => ODec (run_dec tok a d tr l)
   | CNd t _ => ONd (numericdate t)
   end.
